@@ -26,7 +26,7 @@ d = d[:a] + "\n".join(rows) + "\n\n" + d[b:]
 n = len(res)
 caught = sum(1 for r in res.values() if r.get("caught_by"))
 print(f"{n} changes, {caught} caught by at least one check")
-for rnd, lo, hi in (("round 3", 7, 9), ("round 4", 10, 12)):
+for rnd, lo, hi in (("round 3", 7, 9), ("round 4", 10, 12), ("round 5", 13, 15)):
     sub = {k: r for k, r in res.items() if lo <= key(k)[1] <= hi}
     ft = [r.get("first_trial") for r in sub.values()]
     print(rnd, len(sub), "own", ft.count("own"), "other", ft.count("other"), "none", ft.count("none"))
